@@ -12,7 +12,7 @@
    their conclusions: the results are functions of the data alone. *)
 From Coq Require Import List NArith Arith Lia.
 From NV Require Import Io.Source Io.ReadExact Io.ReadExactProofs Io.BufReader Io.BufReaderProofs
-  Io.FastaScan Io.FastaScanProofs Io.Run.
+  Io.FastaScan Io.FastaScanProofs Io.Run Io.RunProofs.
 Import ListNotations.
 
 (* every delivery script (any split sizes, any placement of Interrupted) is a simulating reader;
@@ -115,6 +115,48 @@ Theorem c12_read_line_sched_indep :
 Proof. exact (@read_line_spec). Qed.
 Print Assumptions c12_read_line_sched_indep.
 
+(* gff::io::Reader::read_line (read_line repeated while the line is blank): closed form *)
+Theorem c12_gff_read_line_sched_indep :
+  forall (S : Type) (rd : reader S) (Rep : S -> list N -> nat -> Prop), simulates rd Rep ->
+  forall cap, 1 <= cap ->
+  forall lines fuel st d m n l rest,
+    rep_buf Rep st d m -> m + length d + 1 < fuel -> gff_closed lines d = Some (n, l, rest) ->
+    exists st' m', gff_read_line rd cap lines fuel st = (n, l, UOk, st') /\ rep_buf Rep st' rest m' /\ m' <= m.
+Proof. exact (@gff_read_line_spec). Qed.
+Print Assumptions c12_gff_read_line_sched_indep.
+
+(* BAM record stream (read_exact_or_eof(4) + read_exact(block_size) + validate, repeated) and
+   BGZF frame reading (read_exact(18), size check, read_exact(rest), header check, EOF-marker
+   blocks skipped) are compositions of the primitives: closed forms on the data, any script *)
+Theorem c12_bam_record_stream_closed_form :
+  forall k s d m, rep_src s d m ->
+    exists s' m', bam_read_records k s = (fst (bam_records_closed k d), s')
+                  /\ rep_src s' (snd (bam_records_closed k d)) m'.
+Proof. exact bam_read_records_spec. Qed.
+Print Assumptions c12_bam_record_stream_closed_form.
+
+Theorem c12_bam_record_stream_sched_indep :
+  forall k data sc1 sc2,
+    fst (bam_read_records k (mkSource data sc1)) = fst (bam_read_records k (mkSource data sc2)).
+Proof.
+  intros k data sc1 sc2.
+  destruct (bam_read_records_spec k (mkSource data sc1) data _ (conj eq_refl eq_refl)) as [s1 [m1 [E1 _]]].
+  destruct (bam_read_records_spec k (mkSource data sc2) data _ (conj eq_refl eq_refl)) as [s2 [m2 [E2 _]]].
+  rewrite E1, E2. reflexivity.
+Qed.
+Print Assumptions c12_bam_record_stream_sched_indep.
+
+Theorem c12_bgzf_frames_sched_indep :
+  forall k data sc1 sc2,
+    fst (bgzf_read k (mkSource data sc1)) = fst (bgzf_read k (mkSource data sc2)).
+Proof.
+  intros k data sc1 sc2.
+  destruct (bgzf_read_spec k (mkSource data sc1) data _ (conj eq_refl eq_refl)) as [s1 [m1 [E1 _]]].
+  destruct (bgzf_read_spec k (mkSource data sc2) data _ (conj eq_refl eq_refl)) as [s2 [m2 [E2 _]]].
+  rewrite E1, E2. reflexivity.
+Qed.
+Print Assumptions c12_bgzf_frames_sched_indep.
+
 (* FASTA sequence reader: with no Interrupted pending and sequence text in which '>' occurs only
    at the start of a line and CR only immediately before LF (or as the last byte), the sequence
    returned is the closed form [seq_spec d] whatever windows the BufReader produces. *)
@@ -152,13 +194,24 @@ Proof.
 Qed.
 Print Assumptions c12_fasta_midline_gt_refuted.
 
-(* the indexer's line consumer has the same dependence (model only; no positive theorem yet):
-   ">x\nAC\rGT\n" counts 5 bases with one window and 4 with windows of 3 bytes *)
-Theorem c12_fasta_indexer_bare_cr_refuted_partial :
+(* FASTA indexer, consume_sequence_line: on the same well-formed text the (line width, base count)
+   pair is the closed form: width = the line up to and including its LF (stopping before a '>'
+   line), bases = its bytes other than CR and LF — whatever the windows *)
+Theorem c12_fasta_indexer_line_chunk_indep :
+  forall (S : Type) (rd : reader S) (Rep : S -> list N -> nat -> Prop), simulates rd Rep ->
+  forall cap, 1 <= cap ->
+  forall fuel st d b w0 b0, rep_buf Rep st d 0 -> wf_seq b d -> length d + 1 < fuel ->
+    exists st', consume_sequence_line rd cap fuel st false w0 b0
+                = (SOk, w0 + length (seq_line d), b0 + length (filter not_nl (seq_line d)), st').
+Proof. exact (@consume_sequence_line_spec). Qed.
+Print Assumptions c12_fasta_indexer_line_chunk_indep.
+
+(* without the side condition: ">x\nAC\rGT\n" counts 5 bases with one window, 4 with windows of 3 *)
+Theorem c12_fasta_indexer_bare_cr_refuted :
   let data := [62; 120; 10; 65; 67; 13; 71; 84; 10]%N in
   snd (fst (fidx_first_line 64 (mkSource data []))) <> snd (fst (fidx_first_line 3 (mkSource data []))).
 Proof. vm_compute. discriminate. Qed.
-Print Assumptions c12_fasta_indexer_bare_cr_refuted_partial.
+Print Assumptions c12_fasta_indexer_bare_cr_refuted.
 
 (* ---- non-vacuity *)
 (* a script with 1-byte deliveries and an Interrupted in the middle: read_exact 4 of "abcdef" *)
